@@ -112,18 +112,18 @@ NextE == UNCHANGED dummy /\
         (* screw form, scalar multiples s: rational expectation, any angle *)
         \/ /\ nOf(h) # 0 /\ QNorm(h) < 40
            /\ \E rep \in Reps2, s \in (IF Thorough THEN {-3, -1, 1, 2, 3} ELSE {-3, 1, 2}), alpha \in Alphas, y \in Ys :
-              PowOK(h, s) /\ LET E == ScrewSE3(rep, h, s, alpha, y) IN RepOK(rep, E.q) /\
+              PowOK(h, s) /\ \E E \in {ScrewSE3(rep, h, s, alpha, y)} : RepOK(rep, E.q) /\     \* (bound => evaluated once)
               tv' = [op |-> "exp_se3_screw", rep |-> rep, h |-> h, s |-> s, alpha |-> alpha, y |-> y, cell |-> cell,
                      E |-> E, exp |-> Mat(E), Ad |-> AdClosed(E)]
         \/ /\ nOf(h) # 0 /\ QNorm(h) < 12
            /\ \E rep \in Reps2, s \in {-2, 1, 3}, y1 \in {<<1,0,0>>, <<0,-2,1>>}, y2 \in {<<0,0,0>>, <<1,1,3>>} :
-              PowOK(h, s) /\ LET E == ScrewSE23(rep, h, s, 1, y1, -2, y2) IN RepOK(rep, E.q) /\
+              PowOK(h, s) /\ \E E \in {ScrewSE23(rep, h, s, 1, y1, -2, y2)} : RepOK(rep, E.q) /\
               tv' = [op |-> "exp_se23_screw", rep |-> rep, h |-> h, s |-> s, a1 |-> 1, y1 |-> y1, a2 |-> -2, y2 |-> y2,
                      cell |-> cell, E |-> E, exp |-> Mat(E), Ad |-> AdClosed(E)]
         (* one-parameter subgroup law on pairs (s,t) -- compared code-vs-spec on both sides *)
         \/ /\ nOf(h) # 0 /\ QNorm(h) <= 4
            /\ \E rep \in Reps2, st \in STPairs, y \in {<<0,-2,1>>} : LET s == st[1] t == st[2] IN
-              LET E == ScrewSE3(rep, h, s + t, 1, y) Es == ScrewSE3(rep, h, s, 1, y) Et == ScrewSE3(rep, h, t, 1, y) IN
+              \E E \in {ScrewSE3(rep, h, s + t, 1, y)}, Es \in {ScrewSE3(rep, h, s, 1, y)}, Et \in {ScrewSE3(rep, h, t, 1, y)} :
               RepOK(rep, E.q) /\ RepOK(rep, Es.q) /\ RepOK(rep, Et.q) /\
               tv' = [op |-> "hom_se3", rep |-> rep, h |-> h, s |-> s, t |-> t, alpha |-> 1, y |-> y, cell |-> cell,
                      exp |-> Mat(E)]
